@@ -199,6 +199,7 @@ package simpledb
 //@   call 0 of saveCompactionMetadata: assert [C02,C11:output-closed-before-flag] called(SSTableStreamWriter.Close, 1) && callres(SSTableStreamWriter.Close, 1, 0) == nil
 //@   call 0 of MergeCompact: assert [C06:tombstones-dropped-only-with-oldest-table] arg2 == fn(sstables.ScanReduceLatestWins) ||
 //@        (arg2 == fn(sstables.ScanReduceLatestWinsSkipTombstones) && compactionAction.includesOldestTable)
+//@   call 0 of sstables.BloomExpectedNumberOfElements: assert [C01:bloom-filter-sized-for-at-least-one-element] arg0 > 0
 //@   call 0 of SSTableReaderI.Scan: assert [C19:opened-reader-registered-before-it-is-used] len(readers) > 0 && readers[len(readers) - 1] == recv
 //@   exit [C19:every-registered-reader-closed] called(SSTableStreamWriter.Open, 0) && callres(SSTableStreamWriter.Open, 0, 0) == nil ==>
 //@        forall j :: 0 <= j && j < len(readers) ==> rclosed(readers[j]) >= 1
@@ -325,10 +326,11 @@ package simpledb
 //@   // (assumed is the frame only: what the recovery of the log may change; the call and exit clauses are verified)
 //@   modifies db.wal, db.memStore, db.currentGeneration, db.sstableManager.allSSTableReaders, db.sstableManager.currentReader,
 //@            db.sstableManager.allSSTableReaders[*], mst(*), mvl(*), fresh(*)
-//@   props C10 C02 C13
+//@   props C10 C02 C13 C01
 //@   replay crash_points
 //@   bounded crash_points process kill at file-system call boundaries (strace signal injection at the N-th write / pwrite64 / openat / rename* / unlink* / mkdir* / rmdir / ftruncate / fsync / fdatasync of a thread): a 16-operation workload (puts, overwrites, deletes, 2 compaction cycles, memstore rotations) x synchronous and asynchronous log x {real background flusher, sequential schedule on one locked thread = every call of the process}; every 9th call (quick) / every call (thorough); every 4th (5th) crash image additionally with the recovery killed once (twice); recovery killed at each unlink while it clears a log directory with three unflushed files; after each: Open succeeds and the reads equal the acknowledged prefix
 //@   requires db.memStore != nil && db.memStore.writeStore != nil && db.sstableManager != nil && db.sstableManager.managerLock != nil
+//@   call 0 of wal.MaximumWalFileSizeBytes: assert [C01,C02:log-never-rotates-by-size] arg0 == 18446744073709551615
 //@   call 0 of removeWalOldestFirst: assert [C10,C02:log-removed-only-after-the-replayed-records-are-in-a-table] numRecords == 0 ||
 //@        (called(executeFlush, 0) && callres(executeFlush, 0, 0) == nil)
 //@   exit [C10:replay-error-fails-the-open] called(WriteAheadLogReplayI.Replay, 0) && callres(WriteAheadLogReplayI.Replay, 0, 0) != nil ==> r0 != nil
